@@ -108,8 +108,10 @@ def obs_record(src, o):
     l = o.get("lsp")
     if l is not None and not l["dead"] and not l["hung"]:
         # two load/evaluate cycles on the same sources (from disk, then with the main document opened): the same verdict both times
-        a, b = l["diagnostics"] >= 1, l.get("diagnostics_open", l["diagnostics"]) >= 1
-        r["lsp"] = "diagnostics" if (a and b) else ("clean" if not (a or b) else "flapping")
+        # three load/evaluate cycles on the same sources: from disk, with the main document opened, and after a different
+        # buffer was opened over it and closed again without saving
+        vs = [l["diagnostics"] >= 1, l.get("diagnostics_open", l["diagnostics"]) >= 1, l.get("diagnostics_closed", l["diagnostics"]) >= 1]
+        r["lsp"] = "diagnostics" if all(vs) else ("clean" if not any(vs) else "flapping")
     return r
 
 
@@ -123,7 +125,7 @@ def diagnose(rec):
         return "C13|cli-exit-depends-on-configuration|%s" % p
     fails = exits[0] == 1
     if rec.get("lsp") == "flapping":
-        return "C13|lsp-diagnostics-differ-between-two-cycles-on-the-same-sources|%s" % p
+        return "C13|lsp-diagnostics-differ-between-cycles-on-the-same-sources|%s" % p
     if any(c.get("decoy_changed") for c in rec["cli"]):
         return "C13|configuration-file-target-written-although-overridden-by-option|%s" % p
     if fails and any(c["changed"] for c in rec["cli"]):
